@@ -12,6 +12,8 @@ pub struct Relativizer<T> {
     path_end: usize,
     slashes: Vec<usize>,
     pseudoroot: usize, // not the actual root, but the point below which we don't relativize
+    path_begin: usize,
+    has_authority: bool,
 }
 
 impl<T: Deref<Target = str>> Relativizer<T> {
@@ -51,6 +53,7 @@ impl<T: Deref<Target = str>> Relativizer<T> {
         } else {
             path_begin
         };
+        let has_authority = base.authority().is_some();
         let base = base.into_inner();
 
         Self {
@@ -59,6 +62,8 @@ impl<T: Deref<Target = str>> Relativizer<T> {
             path_end,
             slashes,
             pseudoroot,
+            path_begin,
+            has_authority,
         }
     }
 
@@ -68,61 +73,60 @@ impl<T: Deref<Target = str>> Relativizer<T> {
     }
 
     /// Relativize the given IRI against the base of this [`Relativizer`] if possible.
+    ///
+    /// The returned reference, if any, always resolves back to `iri` against the base.
     pub fn relativize<'a>(&self, iri: Iri<&'a str>) -> Option<IriRef<Cow<'a, str>>> {
+        // NB: the first `lcp` bytes of iri and base are identical,
+        // so any char boundary of base that is <= lcp is also a char boundary of iri.
         let lcp = longest_common_prefix(&self.base, iri.as_str());
-        if lcp >= self.query_end {
+        if lcp >= self.query_end
+            && (iri.len() == self.query_end || iri[self.query_end..].starts_with('#'))
+        {
             // iri is identicical to base or differs in the fragment only.
             // regardless, we must include the fragment (if any) in the relative IRI.
             Some(IriRef::new_unchecked(iri[self.query_end..].into()))
-        } else if lcp > self.path_end {
-            // both iri and base have a query and-or fragment (because lcp is *strictly* > to path_end)
-            // and they differ in the query or presence thereof
-            // (because if if they differed only in fragment, we would have matched above)
+        } else if lcp >= self.path_end && iri[self.path_end..].starts_with('?') {
+            // both iri and base have exactly the same path, and iri has a query
             // → we include query and-or fragment in the relative IRI
-            Some(IriRef::new_unchecked(iri[self.path_end..].into()))
-        } else if lcp == self.path_end
-            && (iri.len() == self.path_end || iri[self.path_end..].starts_with(['?', '#']))
-        {
-            // both iri and base have exactly the same path, but differ after
-            // → same as above
             Some(IriRef::new_unchecked(iri[self.path_end..].into()))
         } else if lcp >= self.pseudoroot {
             // iri and base have similar paths
-            for (nb, slash) in self.slashes.iter().copied().enumerate() {
-                if lcp > slash {
-                    return if nb == 0 {
-                        if iri.len() == slash + 1 || iri[slash + 1..].starts_with(['?', '#']) {
-                            // insert ./ if there is no path element after the last slash
-                            Some(IriRef::new_unchecked(
-                                format!("./{}", &iri[slash + 1..]).into(),
-                            ))
-                        } else {
-                            Some(IriRef::new_unchecked(iri[slash + 1..].into()))
-                        }
-                    } else {
-                        // insert the expected amount of '../'
-                        let mut parts = vec![".."; nb + 1];
-                        parts[nb] = &iri[slash + 1..];
-                        Some(IriRef::new_unchecked(parts.join("/").into()))
-                    };
-                }
-            }
-            if self.slashes.is_empty() {
-                if iri[self.pseudoroot - 1..].starts_with('/')
-                    && (iri.len() == self.pseudoroot
-                        || iri[self.pseudoroot..].starts_with(['?', '#']))
-                {
-                    Some(IriRef::new_unchecked(
-                        format!("./{}", &iri[self.pseudoroot..]).into(),
-                    ))
+            // (or the same path, but base has a query and iri has none)
+            let (nb, cut) = self
+                .slashes
+                .iter()
+                .copied()
+                .enumerate()
+                .find(|(_, slash)| lcp > *slash)
+                .map(|(nb, slash)| (nb, slash + 1))
+                .unwrap_or((self.slashes.len(), self.pseudoroot));
+            let suffix = &iri[cut..];
+            let path = &suffix[..suffix.find(['?', '#']).unwrap_or(suffix.len())];
+            if path.split('/').any(|seg| seg == "." || seg == "..") {
+                // dot segments would be removed when resolving
+                None
+            } else if path.starts_with('/') {
+                // an empty segment can not start a relative path;
+                // suffix can only be used as is (absolute path) if it is the whole path of iri
+                if cut == self.path_begin && !path.starts_with("//") {
+                    Some(IriRef::new_unchecked(suffix.into()))
                 } else {
-                    Some(IriRef::new_unchecked(iri[self.pseudoroot..].into()))
+                    None
                 }
+            } else if self.has_authority && self.path_begin == self.path_end {
+                // base has an empty path: every relative path resolves to a path starting with '/'
+                None
+            } else if nb > 0 {
+                // insert the expected amount of '../'
+                let mut ret = "../".repeat(nb);
+                ret.push_str(suffix);
+                Some(IriRef::new_unchecked(ret.into()))
+            } else if path.is_empty() || path.split('/').next().unwrap_or("").contains(':') {
+                // insert ./ if there is no path element after the last slash,
+                // or if the first path element could be mistaken for a scheme
+                Some(IriRef::new_unchecked(format!("./{suffix}").into()))
             } else {
-                let nb = self.slashes.len();
-                let mut parts = vec![".."; nb + 1];
-                parts[nb] = &iri[self.pseudoroot..];
-                Some(IriRef::new_unchecked(parts.join("/").into()))
+                Some(IriRef::new_unchecked(suffix.into()))
             }
         } else {
             // iri and base are too different to relativize
